@@ -101,6 +101,7 @@ type W struct {
 	clockN  int
 	poolBag int
 	unwindOverride map[string]int
+	seqOnly        bool // -seq: only the harness goroutine is encoded (sequential prefix)
 	racy    map[string]bool     // cells that are scheduling points (from the access pre-pass)
 	access  map[string]*cellAccess
 	accessName map[string]string
@@ -416,7 +417,7 @@ func (w *W) run(root *ssa.Function) {
 			// next unvisited goroutine: the harness first, then those named by -order, then discovery order
 			var t *Thread
 			for _, c := range w.threads {
-				if visited[c.id] {
+				if visited[c.id] || (w.seqOnly && c.id != 0) {
 					continue
 				}
 				if t == nil || w.prio(c) < w.prio(t) {
@@ -440,6 +441,13 @@ func (w *W) run(root *ssa.Function) {
 		t.round = w.R
 		t.running = False
 		t.canmove = False
+		if w.seqOnly && t.id != 0 {
+			// -seq: the goroutines the harness spawned are not encoded; they have not run when the harness ends
+			// (claims are the harness's inline assertions only), so the final state is never quiescent if one exists
+			t.canmove = t.spawned
+			quiescent = And(quiescent, Not(t.spawned))
+			continue
+		}
 		w.walkThread(t)
 		// a thread that has not been spawned cannot move
 		quiescent = And(quiescent, Not(And(t.spawned, t.canmove)), Not(t.truncated))
